@@ -289,6 +289,12 @@ func driverApp(c *Ctx) {
 		pipe := map[string][][]byte{"H": nil, "E": nil}
 		peer := map[string]string{"H": "E", "E": "H"}
 		sentHdr := map[string][]byte{} // header of every primary an entity sent, by its system bytes (for S9F9)
+		stream := map[string][]byte{"H": nil, "E": nil} // everything that was put on the wire towards H / E, frame after frame
+		frames := map[string][][]byte{"H": nil, "E": nil}
+		put := func(to string, b []byte) {
+			stream[to] = append(stream[to], b...)
+			frames[to] = append(frames[to], b)
+		}
 		// dataEvent: the frame of a data message made by the library, judged like any round-trip event plus the model's bytes
 		dataEvent := func(k int, how string, x appMsg, expect []int, mk func() *ast.DataMessage) []byte {
 			var m *ast.DataMessage
@@ -326,6 +332,7 @@ func driverApp(c *Ctx) {
 					}
 				}
 				pipe[peer[st.E]] = append(pipe[peer[st.E]], b)
+				put(peer[st.E], b)
 			case "T3":
 				// the reply timer of one of the equipment's primaries ran out: S9F9 with that primary's header
 				if st.Reply.Kind == "data" {
@@ -336,6 +343,7 @@ func driverApp(c *Ctx) {
 						return lib.data(r, st.E)
 					})
 					pipe[peer[st.E]] = append(pipe[peer[st.E]], b)
+					put(peer[st.E], b)
 				}
 			case "Recv":
 				ev := J{"ev": "apprecv", "step": k, "desync": false, "bytes": []int{}, "expect": st.Bytes, "ok": false,
@@ -389,8 +397,33 @@ func driverApp(c *Ctx) {
 				}
 				if st.Sent {
 					pipe[peer[st.E]] = append(pipe[peer[st.E]], rb)
+					put(peer[st.E], rb)
 				}
 			}
+		}
+		// the byte stream of each direction, as TCP delivers it: cut into frames again by nothing but the four length
+		// bytes in front of every message, each frame decoded
+		for _, to := range []string{"H", "E"} {
+			ev := J{"ev": "appstream", "to": to, "frames": len(frames[to]), "streamlen": len(stream[to]), "cut": 0, "same": true, "allok": true, "rest": 0}
+			in := poisoned(stream[to])
+			pos, k := 0, 0
+			for pos+4 <= len(in) {
+				n := int(in[pos])<<24 | int(in[pos+1])<<16 | int(in[pos+2])<<8 | int(in[pos+3])
+				if n < 10 || pos+4+n > len(in) {
+					break
+				}
+				fr := in[pos : pos+4+n]
+				if k >= len(frames[to]) || string(fr) != string(frames[to][k]) {
+					ev["same"] = false
+				}
+				if _, ok := hsms.Parse(fr); !ok {
+					ev["allok"] = false
+				}
+				pos += 4 + n
+				k++
+			}
+			ev["cut"], ev["rest"] = k, len(in)-pos
+			c.emit(i, ev)
 		}
 		c.count("app.behaviours")
 	}
